@@ -165,6 +165,52 @@ void write_back_self_compound_members(Interpreter &interpreter,
         }
     }
 }
+
+// Helper for the self -> receiver write-back at the end of a method (3/3).
+// When the receiver is the `self` of a method further down the call stack
+// (`self.m()`, possibly with other calls in between), the write-back updates
+// that `self` variable, but its by-name update of the individual member
+// variables ("self.size", "self.in.a") resolves to the frame of the method
+// that is just ending.  The caller reads its members through its own
+// individual variables and merges them into `self` when it returns, so they
+// are refreshed here from the receiver.
+void refresh_caller_self_members(Interpreter &interpreter,
+                                 const Variable *receiver_var) {
+    if (!receiver_var) {
+        return;
+    }
+    auto &scope_stack = interpreter.get_scope_stack();
+    // the top scope belongs to the method that is ending
+    for (size_t depth = scope_stack.size(); depth-- > 1;) {
+        auto &caller_variables = scope_stack[depth - 1].variables;
+        auto self_it = caller_variables.find("self");
+        if (self_it == caller_variables.end() ||
+            &self_it->second != receiver_var) {
+            continue;
+        }
+        std::function<void(const std::string &, const Variable &)>
+            refresh_members = [&](const std::string &base_name,
+                                  const Variable &struct_value) {
+                for (const auto &member_pair : struct_value.struct_members) {
+                    std::string member_path =
+                        base_name + "." + member_pair.first;
+                    auto member_it = caller_variables.find(member_path);
+                    if (member_it == caller_variables.end()) {
+                        continue;
+                    }
+                    member_it->second = member_pair.second;
+                    // individual variables of nested struct members
+                    // ("self.in.a")
+                    if (member_pair.second.is_struct &&
+                        !member_pair.second.is_array) {
+                        refresh_members(member_path, member_pair.second);
+                    }
+                }
+            };
+        refresh_members("self", self_it->second);
+        return;
+    }
+}
 } // namespace
 
 int64_t ExpressionEvaluator::evaluate_function_call_impl(const ASTNode *node) {
@@ -7044,6 +7090,11 @@ int64_t ExpressionEvaluator::evaluate_function_call_impl(const ASTNode *node) {
                     write_back_self_compound_members(
                         interpreter_, receiver_var, receiver_name,
                         used_resolution_ptr && dereferenced_struct_ptr);
+
+                    // the receiver may be the `self` of a calling method
+                    // (int t = self.grow(d);): the normal-completion path
+                    // above refreshes that method's member variables too
+                    refresh_caller_self_members(interpreter_, receiver_var);
                 }
             }
 
